@@ -14,9 +14,21 @@ the specification every cell is a function of its group's row list. Here:
   * `agg_perm_invariant`           hence the specification's table is the same for every permutation of the rows;
   * `engine_perm_invariant`        and so is the table the engine shows (through the refinement);
   * `batch_run_ignores_line_order` and what the executed batch run `runBatch` prints for a file and any permutation of it;
+  * `deviation_class_ignores_line_order` the known deviation classes of C04 (D10, D15) are a function of the multiset of the
+        rows for these statements — so the theorems above ask for "outside D10 / D15" for ONE of the two inputs only;
   * `concat_*`                     the result over a concatenation is the key-wise combination of the parts: the groups
         are the union, a group's rows are its rows in part one followed by its rows in part two, counts and sums add,
-        minima and maxima combine.
+        minima and maxima combine;
+  * `agg_concat_merge` / `agg_concat_merge_all` the same at table level (all aggregates the property names: through keyed
+        summaries); `agg_concat_merge_summaries`, `table_of_concat_is_merge_of_part_summaries` with the summaries NAMED:
+        `partSummaries O q rᵢ` is what part i remembers, the summaries of `r₁ ++ r₂` are `mergeSummaries q S₁ S₂`, every
+        table is `tableOfSummaries` of its summaries;
+  * `batch_run_of_split_is_merge_of_summaries`, `batch_run_of_concat_is_merge_of_summaries` at the level of the executed
+        batch run: what `runBatch` prints for `l₁ ++ l₂` (one file, or the two files `[l₁, l₂]`) is the table of the merged
+        per-part summaries (`Props/PipelineLines.lean` `split_input_is_merge_of_summaries` carries it to `runText`);
+  * a complete instance at the end: GROUP BY with COUNT(*), SUM, AVG, VARIANCE, MIN, MAX, PERCENTILE, COUNT(DISTINCT), INT
+        and REAL arguments, `SplitSafe` proved for every group key (`splitSafe_of_ints`, `splitSafeInputsB_sound`), every
+        hypothesis discharged, summaries and tables evaluated by the kernel.
 
 The hypotheses are stated, never hidden — and ONE of them the property does NOT grant:
   * `SumsOrderFree`, INT / INTERVAL clause (`intOk`): the partial sums stay within range in EVERY order. The sentence grants an
